@@ -123,16 +123,24 @@ def stage_b(ctx, procs):
         report(ctx, recs, ver)
 
 
+def strip12(rec):
+    return {k: v for k, v in rec.items() if k not in ('text', 'alpha', 'reuse')}
+
+
 def report(ctx, recs, ver):
     for rec in recs:
         for cls, cnt, first in sorted(ver[rec['sid']]):
             pr = rec['pairs'][first - 1]
-            ctx.violation('C12/Checker.check/%s' % cls, what_c(rec, cls, cnt, first),
-                          {'kind': 'c', 'rules': rec['rules'], 'text': rec['text'], 'class': cls,
-                           'pkt': rec['names'][pr[0] - 1], 'key': rec['names'][pr[1] - 1], 'recorded': pr[2]})
+            obj = {'kind': 'c', 'rules': rec['rules'], 'text': rec['text'], 'class': cls,
+                   'pkt': rec['names'][pr[0] - 1], 'key': rec['names'][pr[1] - 1], 'recorded': pr[2]}
+            if rec.get('reuse'):
+                # calls were made on one Checker through two reused list objects: keep the history up to the call
+                obj['history'] = [[rec['names'][q[0] - 1], rec['names'][q[1] - 1]] for q in rec['pairs'][:first]][-50:]
+                cls = 'reused-name-objects/' + cls
+            ctx.violation('C12/Checker.check/%s' % cls, what_c(rec, cls, cnt, first), obj)
 
 
-def make_pairs(ctx, ck, rules, text, L, nsample, Lall, tag):
+def make_pairs(ctx, ck, rules, text, L, nsample, Lall, tag, reuse=False):
     """names (with digest variants) and the pairs to ask. Returns (names, pairs [[pi, ki, res]])."""
     rng = ctx.rng
     alpha = K.alphabet(rules, rng)
@@ -151,6 +159,11 @@ def make_pairs(ctx, ck, rules, text, L, nsample, Lall, tag):
     for a in pool:
         for b in pool:
             ask.add((a, b))
+    # packets that match a rule against EVERY key name: a key may match its rule only with the bindings carried
+    # over from the packet (constraints naming patterns of the packet rule), so it need not be in `hit`
+    for a in (hit if len(hit) <= 25 else rng.sample(hit, 25)):
+        for b in allidx:
+            ask.add((a, b))
     for _ in range(nsample):
         a = rng.choice(hit) if hit and rng.random() < 0.85 else rng.choice(allidx)
         b = rng.choice(hit) if hit and rng.random() < 0.7 else rng.choice(allidx)
@@ -164,8 +177,13 @@ def make_pairs(ctx, ck, rules, text, L, nsample, Lall, tag):
         ask.add((a, b))
     pairs = []
     hitset = set(hit)
-    for a, b in sorted(ask):
-        st, res = K.run_check(ck, names[a], names[b])
+    order = sorted(ask)
+    if reuse:                       # one long-lived pair of list objects, rewritten in place, calls in random order
+        rng.shuffle(order)
+        bufp, bufk = [], []
+    for a, b in order:
+        st, res = (K.run_check_reused(ck, bufp, bufk, names[a], names[b]) if reuse
+                   else K.run_check(ck, names[a], names[b]))
         ctx.evaluations += 1
         if st != 'ok':
             empty = (not names[a]) or (not names[b])
@@ -185,7 +203,7 @@ def stage_c(ctx, procs):
     L = ctx.pick(3, 4)
     Lall = 2
     nsample = ctx.pick(800, 5000)
-    gen = K.Gen(ctx.rng, signing=0.85, p_forward=0.2, p_redef=0.3, p_twin=0.6, force_twin=0.6)
+    gen = K.Gen(ctx.rng, signing=0.85, p_forward=0.2, p_redef=0.3, p_twin=0.6, force_twin=0.6, carried=0.5)
     recs, rejected, sid, nyes = [], 0, 0, 0
     while len(recs) < n and sid < 4 * n:
         sid += 1
@@ -203,14 +221,15 @@ def stage_c(ctx, procs):
         ctx.traces += 1
         # all pairs of short names; in the thorough tier every 10th schema gets all pairs one length further
         alpha, names, pairs = make_pairs(ctx, ck, rules, text, L, nsample,
-                                         Lall + (1 if not ctx.quick and len(recs) % 10 == 0 else 0), sid)
+                                         Lall + (1 if not ctx.quick and len(recs) % 10 == 0 else 0), sid,
+                                         reuse=len(recs) % 3 == 1)
         nyes += sum(1 for p in pairs if p[2])
         recs.append({'sid': sid, 'kind': 'c', 'rules': rules, 'model': K.dump_model(ck.model), 'names': names,
-                     'pairs': pairs, 'text': text, 'alpha': alpha})
+                     'pairs': pairs, 'text': text, 'alpha': alpha, 'reuse': len(recs) % 3 == 1})
         ctx.sample({'kind': 'C-schema', 'text': text, 'pairs': len(pairs), 'yes': sum(1 for p in pairs if p[2])}, limit=3)
     ctx.note('C: %d generated schemas with signing relations (%d more rejected, judged by C13), %d pairs in total, '
              '%d answered yes' % (len(recs), rejected, sum(len(r['pairs']) for r in recs), nyes))
-    ver = K.judge(ctx, [c11.strip(r) for r in recs], 'c12c', procs)
+    ver = K.judge(ctx, [strip12(r) for r in recs], 'c12c', procs)
     report(ctx, recs, ver)
 
 
@@ -227,7 +246,13 @@ def replay(ctx, path):
     if oc != 'ok':
         print('build failed', oc, msg)
         return 1
-    st, res = K.run_check(ck, obj['pkt'], obj['key'])
+    if obj.get('history'):
+        bufp, bufk = [], []
+        for a, b in obj['history']:
+            st, res = K.run_check_reused(ck, bufp, bufk, a, b)
+        print('after %d earlier calls through the same two list objects:' % (len(obj['history']) - 1))
+    else:
+        st, res = K.run_check(ck, obj['pkt'], obj['key'])
     print('Checker.check(/%s, /%s) -> %s %s' % ('/'.join(obj['pkt']), '/'.join(obj['key']), st, res))
     print('Checker.match(key) ->', K.run_match(ck, obj['key']))
     if obj.get('kind') == 'c' and st == 'ok':
